@@ -351,6 +351,38 @@ func disjuncts(e ast.Expr, fn string) []string {
 
 func enabledPredicate(f *ast.File, fn string, coqName string) {
 	fd := findFunc(f, fn)
+	// the same predicate written as `switch x { case A, B, C: return true; default: return false }`
+	// (or with `return false` after the switch)
+	if sw, ok := fd.Body.List[0].(*ast.SwitchStmt); ok && sw.Init == nil && sw.Tag != nil && len(fd.Body.List) <= 2 {
+		isRet := func(st ast.Stmt, val string) bool {
+			rs, ok := st.(*ast.ReturnStmt)
+			return ok && len(rs.Results) == 1 && selName(rs.Results[0]) == val
+		}
+		var consts []string
+		okForm, hasDefault := true, false
+		for _, cl := range sw.Body.List {
+			cc := cl.(*ast.CaseClause)
+			if cc.List == nil {
+				hasDefault = true
+				okForm = okForm && len(cc.Body) == 1 && isRet(cc.Body[0], "false")
+				continue
+			}
+			okForm = okForm && len(cc.Body) == 1 && isRet(cc.Body[0], "true")
+			for _, e := range cc.List {
+				consts = append(consts, selName(e))
+			}
+		}
+		if len(fd.Body.List) == 2 {
+			okForm = okForm && !hasDefault && isRet(fd.Body.List[1], "false")
+		} else {
+			okForm = okForm && hasDefault
+		}
+		if okForm && len(consts) > 0 {
+			fmt.Fprintf(&out, "Definition %s : list string := %s.\n", coqName, coqStrList(consts))
+			return
+		}
+		die("%s: switch form not understood", fn)
+	}
 	if len(fd.Body.List) != 1 {
 		die("%s: expected a single return", fn)
 	}
